@@ -8,4 +8,10 @@ require (
 	github.com/shopspring/decimal v1.3.1
 )
 
+require (
+	github.com/sourcegraph/conc v0.3.0 // indirect
+	golang.org/x/exp v0.0.0-20230817173708-d852ddb80c63 // indirect
+	golang.org/x/sync v0.3.0 // indirect
+)
+
 replace github.com/sboehler/knut => /repo
